@@ -63,6 +63,10 @@ CHECKS = {
    "spec/HeatExchanger.tla: (1) the arrangement dispatch of HX_Eff/HX_NTU as a machine, model-checked for both label forms of all 8 arrangements; (2) trace validation: the real functions are evaluated on the grid 8 arrangements x 2 label forms x NTU=k/4 x c in {0,..,1} x 1..4 passes and TLC judges label-form independence, range, monotonicity, the c=0 limit and the counter/parallel-flow closed forms against an exp table it verifies itself (semigroup law, Taylor bracket), the counter-flow bound and both round trips; LMTD bounds, symmetry, refusal and the root-free Carlson/Polya bracket.",
    "Fixed point 1e-6 (values) / 1e-4 (exp table); both-mixed cross-flow judged on its rising branch only (its effectiveness has a maximum in NTU); condensing/evaporating only at c = 0; known finding KF-C20-crfuu.",
    "TLA+ spec + TLC model check of the dispatch; real executions judged by the TLA+ trace specification with TLC"),
+ "C10": ("model_checking", "7/C10",
+   "spec/ZoneTree.tla transcribes the synthesis of the zone tree from stream labels (pre-pass, per-path counters, clash avoidance of generated unit-operation names), label rewriting, stream-to-zone matching and the bottom-up aggregation that replaces the collections of every zone with children; TLC checks conservation (exactly one leaf, once in each ancestor, nowhere else) for every sequence of <=3 streams over a label universe built from suffix/prefix pairs, the root name and generated names, and for resolution against a user tree; every configuration is replayed through prepare_problem and the projected tree judged by the same predicates (streams identified by unique duties), plus independence of per-zone utility copies.",
+   "Label universe and user tree fixed in the spec; two input classes with a user tree are known findings carved out by TLA+ predicates; whitespace-padded labels are exercised when VERIF_SEED is odd.",
+   "TLA+ spec + TLC exhaustive model check; TLC-exported cases replayed into the implementation"),
 }
 NOT_YET = {}
 
